@@ -1,0 +1,65 @@
+//go:build verif
+
+package gennaro
+
+// Contracts for the deductive checker in /verif (comment-only; compiled only under the verif tag).
+
+//@ pure func gOth(p *Participant, a Int) Int = seqat(p.ctx.OtherPartiesOrdered(), a, int)
+//@ pure func fvvOf(r3bi V, id sharing.ID) V = res(r3bi.Get(id), 0).FeldmanVerificationVector
+//@ pure func proofOf(r3bi V, id sharing.ID) []byte = res(r3bi.Get(id), 0).Proof
+// vvFold(p, r3bi, k): the local Feldman vector combined (Op) with the vectors of the first k other parties, in order
+//@ ghost func vvFold(loc V, seq V, r3bi V, k Int) V
+//@ theory gennaroFold
+//@ axiom VVFold0: forall loc, seq, m V :: vvFold(loc, seq, m, 0) == loc
+//@ end
+
+// Round 3 (C03/C04): a key shard is output only if, for EVERY other party of the session, (i) its round-2 broadcast is
+// present and valid, (ii) its batch-Schnorr proof verified under a verifier bound to the session transcript extended
+// with THAT party's identity, for the statement made of ITS broadcast Feldman vector, and (iii) the share received from
+// it in round 2 verifies against that vector. The shard is NewBaseShard(share summed over all parties, the Feldman
+// vectors of ALL parties combined in order, MSP): every party that completes derives the public key from the same
+// combination.
+//@ func (*Participant).Round3
+//@   property C03
+//@   opt trustpre=NewBaseShard
+//@   requires p.prng != nil
+//@   ghostvar ver map[int]typeof(verifier)
+//@   ghostvar acc map[int]typeof(summedFeldmanVerificationVector)
+//@   ensures err == nil ==> forall a Int :: 0 <= a && a < seqlen(p.ctx.OtherPartiesOrdered()) ==> msgOK(p, r3bi, gOth(p, a))
+//@   ensures err == nil ==> forall a Int :: 0 <= a && a < seqlen(p.ctx.OtherPartiesOrdered()) ==> ver[a].Verify(batch_schnorr.NewStatement(p.state.key.G(), slices.Collect(fvvOf(r3bi, gOth(p, a)).Value().Iter())...), proofOf(r3bi, gOth(p, a))) == nil
+//@   ensures err == nil ==> forall a Int :: 0 <= a && a < seqlen(p.ctx.OtherPartiesOrdered()) ==> p.state.feldmanVSS.Verify(res(kw.NewShare(p.state.receivedShares[gOth(p, a)].ID(), p.state.receivedShares[gOth(p, a)].Value()...), 0), fvvOf(r3bi, gOth(p, a))) == nil
+//@   ensures err == nil ==> acc[0] == old(p.state.localFeldmanVerificationVector) && forall a Int :: 0 <= a && a < seqlen(p.ctx.OtherPartiesOrdered()) ==> acc[a+1] == res(acc[a].Op(fvvOf(r3bi, gOth(p, a))), 0)
+//@   ensures err == nil ==> result == res(mpc.NewBaseShard(res(kw.NewShare(p.ctx.HolderID(), p.state.summedShareValue...), 0), acc[seqlen(p.ctx.OtherPartiesOrdered())], p.state.lsss.MSP()), 0)
+//@   loop range(p.ctx.OtherPartiesOrdered())
+//@     invariant forall a Int :: 0 <= a && a < seqlen(p.ctx.OtherPartiesOrdered()) ==> msgOK(p, r3bi, gOth(p, a))
+//@     invariant forall a Int :: 0 <= a && a < $i ==> ver[a].Verify(batch_schnorr.NewStatement(p.state.key.G(), slices.Collect(fvvOf(r3bi, gOth(p, a)).Value().Iter())...), proofOf(r3bi, gOth(p, a))) == nil
+//@     invariant forall a Int :: 0 <= a && a < $i ==> p.state.feldmanVSS.Verify(res(kw.NewShare(p.state.receivedShares[gOth(p, a)].ID(), p.state.receivedShares[gOth(p, a)].Value()...), 0), fvvOf(r3bi, gOth(p, a))) == nil
+//@     invariant acc[0] == old(p.state.localFeldmanVerificationVector) && acc[$i] == summedFeldmanVerificationVector && forall a Int :: 0 <= a && a < $i ==> acc[a+1] == res(acc[a].Op(fvvOf(r3bi, gOth(p, a))), 0)
+//@   ghostset before "for pid := range p.ctx.OtherPartiesOrdered() {": acc[0] = summedFeldmanVerificationVector
+//@   ghostset after "verifier, err := niBatchSchnorr.NewVerifier(verifierCtx)": ver[$i] = verifier
+//@   ghostset after "summedFeldmanVerificationVector, err = summedFeldmanVerificationVector.Op(inB.FeldmanVerificationVector)": acc[$i+1] = summedFeldmanVerificationVector
+
+// Message validation is structural, blames nobody by itself, and a private share must be addressed to its recipient.
+//@ func (*Round1Broadcast).Validate
+//@   property C03, C04
+//@   purefn
+//@   ensures result == nil ==> m != nil && m.PedersenVerificationVector != nil && len(m.Proof) != 0
+//@   ensures forall x V :: !culprit(result, x)
+//@   loop range(rows)
+//@     invariant true
+//@ func (*Round1Unicast).Validate
+//@   property C03, C04
+//@   purefn
+//@   ensures result == nil <==> m != nil && m.Share != nil && m.Share.ID() == participant.SharingID()
+//@   ensures forall x V :: !culprit(result, x)
+//@ func (*Round2Broadcast).Validate
+//@   property C03, C04
+//@   purefn
+//@   ensures result == nil ==> m != nil && m.FeldmanVerificationVector != nil && len(m.Proof) != 0
+//@   ensures forall x V :: !culprit(result, x)
+//@   loop range(rows)
+//@     invariant true
+//@ func (*Participant).SharingID
+//@   property C03
+//@   purefn
+//@   ensures result == p.ctx.HolderID()
